@@ -230,6 +230,15 @@ def end_to_end(ctx, reqs, sd_out):
             r, ri, ", ".join("%s: u8" % f for f in fs)))
         items.append('#[derive(TS, Serialize)] enum U%d { #[serde(rename_all = "%s")] A { %s } }' % (
             ri, r, ", ".join("%s: u8" % f for f in fs)))
+        # the same with every field's type overridden (`#[ts(type = "number")]`: the name of an overridden field follows the same rules)
+        ov = ", ".join('#[ts(type = "number")] %s: u8' % f for f in fs)
+        items.append('#[derive(TS, Serialize, Default)] #[serde(rename_all = "%s")] struct T%d { %s }' % (r, ri, ov))
+        items.append('#[derive(TS, Serialize)] #[serde(rename_all_fields = "%s")] enum X%d { A { %s } }' % (r, ri, ov))
+        items.append('#[derive(TS, Serialize)] enum Y%d { #[serde(rename_all = "%s")] A { %s } }' % (ri, r, ov))
+        main.append('p("T%d", T%d::decl(), vec![serde_json::to_string(&T%d::default()).unwrap()]);' % (ri, ri, ri))
+        for e in ("X", "Y"):
+            main.append('p("%s%d", %s%d::decl(), vec![serde_json::to_string(&%s%d::A { %s }).unwrap()]);' % (
+                e, ri, e, ri, e, ri, ", ".join("%s: 0" % f for f in fs)))
         main.append('p("F%d", F%d::decl(), vec![serde_json::to_string(&F%d::default()).unwrap()]);' % (ri, ri, ri))
         main.append('p("V%d", V%d::decl(), vec![%s]);' % (ri, ri, ", ".join(
             "serde_json::to_string(&V%d::%s).unwrap()" % (ri, v) for v in vs)))
@@ -300,7 +309,7 @@ fn main() { %s }
         else:
             ts_names = [m.strip('"') for m in re.findall(r'(?:[{ ])((?:"[^"]*")|[^\s"{},:]+): number,', decl)]
             o = json.loads(js[0], object_pairs_hook=lambda pairs: pairs)  # keeps duplicate keys
-            if name[0] in "WU":
+            if name[0] in "WUXY":
                 o = o[0][1]
             sd_names = [k for k, _ in o]
         compared += len(sd_names)
